@@ -408,9 +408,8 @@ OptionContext::PrefixRange OptionContext::findImpl(const char* key, FindType t, 
 			++up;
 		}
 		else if ((t & find_prefix) != 0) {
-			k += char(CHAR_MAX);
-			up = index_.upper_bound(k);
-			k.erase(k.end()-1);
+			// all entries having k as prefix are adjacent in the sorted index
+			for (; up != index_.end() && up->first.compare(0, k.size(), k) == 0; ++up) { ; }
 		}
 	}
 	if (std::distance(it, up) != 1 && eMask) {
